@@ -953,6 +953,51 @@ def run_domain_subquery_case(p):
     return None
 
 
+def run_infer_modes_case(p):
+    """C09 / C08: infer(entity(T(...), conditions with class / function predicates)) consumed under each ambient mode (no
+    block, a symbolic_mode block, a rule_mode block, the rule's own rule_mode(q) block): the same real instances every time;
+    and a @predicate function called INSIDE a block (query or rule) builds an expression instead of running its body"""
+    from contextlib import nullcontext
+    from entity_query_language import symbolic_mode, rule_mode, let, infer, entity, and_
+    from entity_query_language.symbolic import SymbolicExpression
+    rng = random.Random(p['seed'])
+    results = {}
+    want = None
+    for label in ('none', 'query', 'rule', 'own_rule_block'):
+        O.reset_registry()
+        r2 = random.Random(p['seed'] + 7)
+        dom = O.make_domain(r2, 5)
+        lim = r2.choice([0, 1, 2])
+        use = r2.choice(['cls', 'fn', 'both'])
+        try:
+            with rule_mode():
+                x = let(type_=O.Item, domain=dom)
+                conds = []
+                if use in ('cls', 'both'):
+                    conds.append(O.IsBig(x, limit=lim))
+                if use in ('fn', 'both'):
+                    pf = O.is_big_fn(x, limit=lim)
+                    if not isinstance(pf, SymbolicExpression):
+                        return {'what': '@predicate function called inside a rule_mode block did not build an expression', 'got': repr(pf),
+                                'signature_kind': 'predicate-executed-inside-a-block'}
+                    conds.append(pf)
+                conds.append(x.size >= 0)
+                q = infer(entity(O.Built(a=x, tag='t'), and_(*conds)))
+            ambient = {'none': nullcontext, 'query': symbolic_mode, 'rule': rule_mode, 'own_rule_block': lambda: rule_mode(q)}[label]
+            with ambient():
+                got = list(q.evaluate())
+            if any(not isinstance(g, O.Built) for g in got):
+                return {'ambient': label, 'what': 'infer did not build real instances', 'got': repr([type(g).__name__ for g in got]),
+                        'signature_kind': 'symbolic-objects'}
+            results[label] = sorted(dom.index(g.a) for g in got)
+            want = sorted(i for i, o in enumerate(dom) if o.size > lim)
+        except Exception as e:  # noqa
+            return {'ambient': label, 'exception': repr(e), 'trace': traceback.format_exc(limit=4), 'signature_kind': 'exception'}
+    if any(v != want for v in results.values()):
+        return {'results_by_ambient_mode': results, 'want': want, 'signature_kind': 'differs'}
+    return None
+
+
 def run_the_operand_case(p):
     """C15: the(entity(m, c)) as a comparison operand, c correlated with the enclosing query (unique match per binding)"""
     from entity_query_language import symbolic_mode, let, an, the, entity
@@ -1098,6 +1143,8 @@ def _run_case(p):
         return run_subquery_operand_case(p)
     if p.get('kind') == 'nextrule':
         return run_nextrule_case(p)
+    if p.get('kind') == 'infer_modes':
+        return run_infer_modes_case(p)
     if p.get('kind') == 'the_nested':
         return run_the_nested_case(p)
     if p.get('kind') == 'the':
@@ -1482,6 +1529,24 @@ def run_concat_case(p):
         if not all(O.same_list_by_identity(sorted(g, key=id), sorted(want, key=id)) for g in outs):
             return {'shape': shape, 'other': repr(other), 'all': all1, 'all2': all2, 'got': repr(outs), 'want': repr(want),
                     'signature_kind': shape}
+        return None
+    if p.get('scalars'):
+        # the concatenated expression is a scalar attribute: every value, falsy ones included, is one element
+        dom = O.make_domain(rng, 4, falsy=True)
+        for o in dom:
+            if rng.random() < 0.3:
+                o.name = None
+        attr = rng.choice(['size', 'name', 'flag'])
+        try:
+            with symbolic_mode():
+                x = let(type_=O.Item, domain=dom)
+                q0 = an(entity(concatenate(getattr(x, attr))))
+            vals = list(q0.evaluate())
+        except Exception as e:  # noqa
+            return {'exception': repr(e), 'trace': traceback.format_exc(limit=4), 'signature_kind': 'scalars:exception'}
+        want0 = [getattr(o, attr) for o in dom]
+        if len(vals) != 1 or [repr(v) for v in vals[0]] != [repr(v) for v in want0]:
+            return {'what': 'concatenate over scalar values', 'attr': attr, 'got': repr(vals), 'want': repr([want0]), 'signature_kind': 'scalars:value'}
         return None
     dom = O.make_domain(rng, 3, falsy=p.get('falsy', False))
     if rng.random() < 0.3:
